@@ -47,6 +47,10 @@ var (
 	ErrSendEventTimedOut = errors.New("event loop send timed out")
 )
 
+// errTorrentStale tells doDownload that the torrent it created was removed from
+// disk before the event loop could schedule it.
+var errTorrentStale = errors.New("torrent removed before it was scheduled")
+
 // Scheduler defines operations for scheduler.
 type Scheduler interface {
 	Stop()
@@ -235,20 +239,26 @@ func (s *scheduler) Stop() {
 
 // doDownload schedules a blob for download, returning only once it's downloaded.
 func (s *scheduler) doDownload(namespace string, d core.Digest) (size int64, err error) {
-	t, err := s.torrentArchive.CreateTorrent(namespace, d)
-	if err != nil {
-		if err == storage.ErrNotFound {
-			return 0, ErrTorrentNotFound
+	for {
+		t, err := s.torrentArchive.CreateTorrent(namespace, d)
+		if err != nil {
+			if err == storage.ErrNotFound {
+				return 0, ErrTorrentNotFound
+			}
+			return 0, fmt.Errorf("create torrent: %s", err)
 		}
-		return 0, fmt.Errorf("create torrent: %s", err)
-	}
 
-	// Buffer size of 1 so sends do not block.
-	errc := make(chan error, 1)
-	if !s.eventLoop.send(newTorrentEvent{namespace, t, errc}) {
-		return 0, ErrSchedulerStopped
+		// Buffer size of 1 so sends do not block.
+		errc := make(chan error, 1)
+		if !s.eventLoop.send(newTorrentEvent{namespace, t, errc}) {
+			return 0, ErrSchedulerStopped
+		}
+		if err := <-errc; err != errTorrentStale {
+			return t.Length(), err
+		}
+		// The torrent was removed from disk between its creation and its
+		// scheduling, so create it again.
 	}
-	return t.Length(), <-errc
 }
 
 // Download downloads the torrent given metainfo. Once the torrent is downloaded,
